@@ -386,18 +386,20 @@ type c11SrvCase struct {
 	Ops  []c11SrvOp `json:"ops"`
 }
 
-const c11P = "include X.journal\n\n2001-01-01 p\n    a:one  1 USD\n    a:two  -1 USD\n"
+// P ends with the header of a transaction whose payee only X knows: the inline
+// completion on the line below offers X's postings for it
+const c11P = "include X.journal\n\n2001-01-01 p\n    a:one  1 USD\n    a:two  -1 USD\n\n2001-03-01 xpayee\n"
 
 func c11X(v int) string {
 	if v == 0 {
-		return "account a:one\n\n2001-02-01 x v0\n    a:one  1 USD\n    a:one  -1 USD\n"
+		return "account a:one\n\n2001-02-01 x v0\n    a:one  1 USD\n    a:one  -1 USD\n\n2001-02-02 xpayee\n    a:one  7 USD\n    a:one  -7 USD\n"
 	}
-	return "account a:two\n\n2001-02-01 x v1\n    a:two  1 USD\n    a:two  -1 USD\n"
+	return "account a:two\n\n2001-02-01 x v1\n    a:two  1 USD\n    a:two  -1 USD\n\n2001-02-02 xpayee\n    a:two  9 USD\n    a:two  -9 USD\n"
 }
 
 func c11SrvOps() []c11SrvOp {
 	var out []c11SrvOp
-	for _, k := range []string{"openP", "closeP", "touchP", "openX", "closeX", "changeX", "saveX"} {
+	for _, k := range []string{"openP", "closeP", "touchP", "openX", "closeX", "changeX", "saveX", "inlineP"} {
 		out = append(out, c11SrvOp{k})
 	}
 	return out
@@ -411,7 +413,8 @@ func c11SrvObserve(s *wire.Session, pu string) string {
 	}
 	sort.Strings(codes)
 	h := s.Call("textDocument/hover", wire.DocPos(pu, 3, 6))
-	return "diagnostics=" + strings.Join(codes, ",") + ";hover=" + h.Result
+	in := s.Call("textDocument/inlineCompletion", wire.DocPos(pu, strings.Count(c11P, "\n"), 0))
+	return "diagnostics=" + strings.Join(codes, ",") + ";hover=" + h.Result + ";inline=" + in.Result
 }
 
 // c11SrvRun replays ops; the key is the state before the probes.
@@ -454,6 +457,12 @@ func c11SrvRun(c *core.Ctx, dir string, root bool, ops []c11SrvOp) (key string, 
 				return "", false
 			}
 			s.DidChangeFull(pu, c11P, 2)
+		case "inlineP":
+			// a request that fills the per-document template cache
+			if !pOpen {
+				return "", false
+			}
+			s.Call("textDocument/inlineCompletion", wire.DocPos(pu, strings.Count(c11P, "\n"), 0))
 		case "openX":
 			if editor >= 0 {
 				return "", false
@@ -483,7 +492,14 @@ func c11SrvRun(c *core.Ctx, dir string, root bool, ops []c11SrvOp) (key string, 
 	}
 	key = fmt.Sprintf("disk=%d editor=%d pOpen=%v\n%s\n%s", disk, editor, pOpen, s.Srv.VerifxDump(), s.Srv.VerifxCachesDump())
 	key = strings.ReplaceAll(key, dir, "")
-	// probes: P analysed once more
+	// probes: first what P answers as it stands (no new analysis of P) ...
+	asItStands := ""
+	if pOpen {
+		in := s.Call("textDocument/inlineCompletion", wire.DocPos(pu, strings.Count(c11P, "\n"), 0))
+		h := s.Call("textDocument/hover", wire.DocPos(pu, 3, 6))
+		asItStands = "inline=" + in.Result + ";hover=" + h.Result
+	}
+	// ... then P analysed once more
 	if !pOpen {
 		s.DidOpen(pu, c11P)
 	} else {
@@ -500,6 +516,27 @@ func c11SrvRun(c *core.Ctx, dir string, root bool, ops []c11SrvOp) (key string, 
 	}
 	f.DidOpen(pu, c11P)
 	want := c11SrvObserve(f, pu)
+	if asItStands != "" {
+		fin := f.Call("textDocument/inlineCompletion", wire.DocPos(pu, strings.Count(c11P, "\n"), 0))
+		fh := f.Call("textDocument/hover", wire.DocPos(pu, 3, 6))
+		if fresh := "inline=" + fin.Result + ";hover=" + fh.Result; fresh != asItStands {
+			var kinds []string
+			for _, o := range ops {
+				kinds = append(kinds, o.Kind)
+			}
+			ws := "no workspace"
+			if root {
+				ws = "workspace root"
+			}
+			part := "inline completion"
+			if strings.SplitN(fresh, ";hover=", 2)[0] == strings.SplitN(asItStands, ";hover=", 2)[0] {
+				part = "hover"
+			}
+			c.Violate(fmt.Sprintf("server history|%s|%s without a new analysis|%s", ws, part, strings.Join(kinds, ">")), "load result independent of cache history (server)",
+				fmt.Sprintf("%s, history %v (X on disk: version %d, X in the editor: %d), P open and not analysed again\nserver:       %s\nfresh server: %s", ws, kinds, disk, editor, firstN(asItStands, 900), firstN(fresh, 900)),
+				c11SrvCase{"server", root, ops})
+		}
+	}
 	c.Res.Evaluations++
 	if len(ops) >= 3 {
 		c.Res.Nontrivial++
@@ -516,6 +553,9 @@ func c11SrvRun(c *core.Ctx, dir string, root bool, ops []c11SrvOp) (key string, 
 		part := "diagnostics"
 		if strings.SplitN(got, ";hover=", 2)[0] == strings.SplitN(want, ";hover=", 2)[0] {
 			part = "hover"
+			if strings.SplitN(got, ";inline=", 2)[0] == strings.SplitN(want, ";inline=", 2)[0] {
+				part = "inline completion"
+			}
 		}
 		c.Violate(fmt.Sprintf("server history|%s|%s|%s", ws, part, strings.Join(kinds, ">")), "load result independent of cache history (server)",
 			fmt.Sprintf("%s, history %v, then P analysed again (X on disk: version %d, X in the editor: %d)\nserver:       %s\nfresh server: %s", ws, kinds, disk, editor, firstN(got, 900), firstN(want, 900)),
@@ -530,7 +570,7 @@ func c11ServerHistories(c *core.Ctx, dir string) {
 		depth = 7
 	}
 	ops := c11SrvOps()
-	c.Bound("server histories", fmt.Sprintf("BFS depth %d over %d operations (open/close/re-analyse P; open/close/change/save X) x workspace root on/off, P analysed again and compared with a fresh server in the same final state", depth, len(ops)))
+	c.Bound("server histories", fmt.Sprintf("BFS depth %d over %d operations (open/close/re-analyse P, inline completion in P; open/close/change/save X) x workspace root on/off, P analysed again and compared with a fresh server in the same final state", depth, len(ops)))
 	for ri, root := range []bool{false, true} {
 		if !c.MineKey(int64(100 + ri)) {
 			continue
